@@ -138,13 +138,16 @@ func checkHeaderWiring(c *report.Ctx) {
 		"Lambda-Runtime-Deadline-Ms":          {"field:L/interop.Invoke.DeadlineNs", `const:""`},
 	}
 	got := map[string][]string{}
-	for _, call := range an.Calls(rh, func(s string) bool { return strings.HasPrefix(s, "L/rapi/rendering.renderInvokeHeaders$") }) {
+	// (the local helper that skips empty values is looked through by the normal form, whether it is a
+	// closure or a package-level function: the rule reads the Header.Set calls themselves)
+	for _, call := range an.CallsTo(rh, "net/http.Header.Set") {
 		args := call.Common().Args
 		if len(args) != 3 {
 			continue
 		}
-		key, _ := an.ConstString(args[1])
-		got[key] = w.Origins(args[2])
+		if key, isC := an.ConstString(args[1]); isC {
+			got[key] = append(got[key], w.Origins(args[2])...)
+		}
 	}
 	for key, wantO := range want {
 		g := got[key]
@@ -158,19 +161,6 @@ func checkHeaderWiring(c *report.Ctx) {
 			ok = false
 		}
 		c.Check("R-WIRE", "L/rapi/rendering.renderInvokeHeaders/"+key, sprintf("header %s carries %s of the invocation being rendered", key, strings.TrimPrefix(wantO[0], "field:L/interop.Invoke.")), ok, fpos(rh), len(g), "origins: %v", g)
-	}
-	// the closure sets header[key] = value
-	if cl := c.P.Func("L/rapi/rendering", "renderInvokeHeaders$1"); cl != nil {
-		ok := false
-		for _, call := range an.CallsTo(cl, "net/http.Header.Set") {
-			a := call.Common().Args
-			if len(a) == 3 {
-				_, k1 := a[1].(*ssa.Parameter)
-				_, k2 := a[2].(*ssa.Parameter)
-				ok = k1 && k2 && a[1] != a[2]
-			}
-		}
-		c.Check("R-WIRE", "L/rapi/rendering.renderInvokeHeaders$1/sets-key-to-value", "the header helper stores the given value under the given key", ok, cl.Pos(), 1, "Set(key, value): %v", ok)
 	}
 	// deadline conversion chain present: ParseInt -> MonoToEpoch -> / ms -> FormatInt
 	chain := len(an.CallsTo(rre, "strconv.ParseInt")) == 1 && len(an.CallsTo(rre, "L/metering.MonoToEpoch")) == 1 && len(an.CallsTo(rre, "strconv.FormatInt")) == 1
